@@ -457,3 +457,35 @@ fn test_int_tag() {
     check(InlineInt::MAX);
     check(InlineInt::MIN);
 }
+
+/// Kani proof harnesses (full `i32` domain, loop-free: each run is a complete proof).
+#[cfg(feature = "verif_kani")]
+mod verif_kani {
+    use super::*;
+
+    /// The encode/decode pair behind every small-int `Value`: decoding returns the encoded integer,
+    /// and an int pointer is never taken for a string or an unfrozen heap pointer.
+    #[kani::proof]
+    fn c10_pointer_int_roundtrip() {
+        let i: i32 = kani::any();
+        let Ok(i) = InlineInt::try_from(i) else { return };
+        let p = RawPointer::new_int(i);
+        assert!(p.unpack_int() == Some(i));
+        assert!(p.is_int());
+        assert!(!p.is_str());
+        assert!(!p.is_unfrozen());
+        kani::cover!(i.to_i32() < 0);
+        kani::cover!(i.to_i32() == i32::MAX);
+    }
+
+    /// Two small ints are the same pointer exactly when they are the same integer
+    /// (pointer equality is the fast path of `Value::equals`).
+    #[kani::proof]
+    fn c09_pointer_int_injective() {
+        let (a, b): (i32, i32) = (kani::any(), kani::any());
+        let (Ok(x), Ok(y)) = (InlineInt::try_from(a), InlineInt::try_from(b)) else { return };
+        assert!((RawPointer::new_int(x) == RawPointer::new_int(y)) == (a == b));
+        kani::cover!(a == b);
+        kani::cover!(a != b);
+    }
+}
